@@ -218,6 +218,24 @@ def _run_case(ctx, case, rng):
                   got=obs.show(got) if got is not None else None, detail=problems)
         if obs.cells(f) != F:
             ctx.judge(False, case, mech="C14:operand-changed")
+    elif kind == "helper-history":
+        # a fmtfuncs helper called with extra keywords, then plainly: the second call knows nothing
+        # of the first (also when the first was refused)
+        import curtsies.fmtfuncs as _ff
+        name, first_kw, atts = case["helper"], case["first_kwargs"], case["atts"]
+        try:
+            getattr(_ff, name)("a", **dict(first_kw))
+        except ValueError:
+            pass
+        try:
+            r = getattr(_ff, name)("ab")
+        except Exception as ex:  # noqa
+            ctx.judge(False, case, mech="C14:helper-remembers-earlier-call", got=repr(ex))
+            return
+        want = obs.spec_cells([["ab", atts]])
+        problems, got = obs.result_problems(r, want)
+        ctx.judge(not problems, case, ("C14", "helper-history", name, repr(first_kw)), "C14:helper-remembers-earlier-call",
+                  obs.show(want), obs.show(got) if got is not None else None, problems)
     elif kind == "shared-no-runs":
         # a FmtStr without any run (f * 0, sep.join([]), FmtStr()): no character, so nothing shared
         from curtsies.formatstring import FmtStr as _F
@@ -356,6 +374,9 @@ def run(ctx):
             run_case(ctx, {"kind": "casevariant", "args": a, "kwargs": kw, "atts": atts})
         for a, kw, meaning in LENIENT:
             run_case(ctx, {"kind": "lenient", "args": a, "kwargs": kw, "meaning": meaning})
+        for name, kw, atts in (("red", {"bold": True}, {"fg": 31}), ("bold", {"fg": "blue"}, {"bold": True}),
+                               ("on_green", {"underline": True, "fg": 99}, {"bg": 42}), ("underline", {"bg": "red"}, {"underline": True})):
+            run_case(ctx, {"kind": "helper-history", "helper": name, "first_kwargs": kw, "atts": atts})
         for how in ("mul0", "join", "ctor", "splice"):
             run_case(ctx, {"kind": "shared-no-runs", "how": how})
         # the same through copy_with_new_atts (keyword specifications only): unknown names and bad
